@@ -92,6 +92,22 @@ def make_pool(seed, n, scratch):
     with open(os.path.join(root, "main.exps"), "w", encoding="utf-8") as f:
         f.write(text)
     jobs.append({"k": "compile", "text": text, "path": os.path.join(root, "main.exps"), "lookup": [], "cls": "macro-name-clash", "keep": True, "hashseeds": 5})
+    # two scripts in different directories that share macro files (one macro file calling into another): compiled one after
+    # the other on one compiler object, each has to get the source map (relative paths!) a fresh process gives it
+    root = os.path.join(scratch, f"shared{seed & 0xffff}")
+    for d in ("lib", "p1", "p2/deep"):
+        os.makedirs(os.path.join(root, d), exist_ok=True)
+    with open(os.path.join(root, "lib", "c.exps"), "w", encoding="utf-8") as f:
+        f.write("macro inner($x) {\n    c_op($x, Position<'pm', 1, 2>);\n}\n")
+    with open(os.path.join(root, "lib", "b.exps"), "w", encoding="utf-8") as f:
+        f.write('import "./c.exps";\nmacro outer($y) {\n    b_op($y);\n    ~inner($y);\n    if (debug) {\n        ~inner(3);\n    }\n}\n')
+    t1 = 'import "../lib/b.exps";\ndef 0 {\n    ~outer(1);\n    end;\n}\n'
+    t2 = 'import "../../lib/b.exps";\ndef 0 {\n    m2();\n    ~outer(2);\n    ~inner(4);\n    end;\n}\n'
+    for rel, t in (("p1/main.exps", t1), ("p2/deep/main.exps", t2)):
+        with open(os.path.join(root, rel), "w", encoding="utf-8") as f:
+            f.write(t)
+    jobs.append({"k": "compile", "text": t1, "path": os.path.join(root, "p1/main.exps"), "lookup": [], "cls": "shared-lib-1", "keep": True})
+    jobs.append({"k": "compile", "text": t2, "path": os.path.join(root, "p2/deep/main.exps"), "lookup": [], "cls": "shared-lib-2", "keep": True, "after": t1})
     # deeply nested programs: whether they compile depends on the interpreter's recursion limit, which must not depend on history
     for depth in [rnd.choice([40, 90]), rnd.choice([150, 220])]:
         body = "a();"
